@@ -228,7 +228,7 @@ func c12server(c *evid.Ctx) {
 		k      []byte
 	}
 	var stored []known
-	puts := c.Scale(3000, 160000)
+	puts := c.Scale(3000, 100000)
 	getOf := func(target [20]byte, from *net.UDPAddr) (benc.Dict, bool) {
 		rs, err := n.Ask(srv.Query("get", "g", benc.Dict{"id": r.ID(), "target": target}), from)
 		if err != nil || len(rs) != 1 || rs[0].Y() != "r" {
@@ -372,7 +372,7 @@ func c12api(c *evid.Ctx) {
 		return
 	}
 	defer n.Close()
-	puts := c.Scale(1000, 40000)
+	puts := c.Scale(1000, 30000)
 	for i := 0; i < puts && c.NumViolations() < 20; i++ {
 		it := genItem(r)
 		// The Go API takes the value as a Go value; decode ours with the library's decoder-independent form.
@@ -451,7 +451,7 @@ type c12peer struct {
 
 func c12client(c *evid.Ctx) {
 	r := c.R.Fork("client")
-	gets := c.Scale(300, 20000)
+	gets := c.Scale(300, 10000)
 	for g := 0; g < gets && c.NumViolations() < 20; g++ {
 		mutable := g%4 != 0
 		pub, priv := edKey(r)
